@@ -100,7 +100,14 @@ S7 == UNION {{Mk("keys", r, 1, "none", "after", Rules.std, << tin, << "pkh" >> >
                 r \in Regimes, k \in {"exact", "all", "short", "nopkh"}, s \in {SNone, <<0, 1>>}} :
              tin \in {<< "sh12" >>, << "sh23" >>, << "sh23", "pkh" >>, << "pkh", "sh23" >>, << "pkh", "pkh", "pkh" >>, << "sh12", "sh23" >>}}
 
-Domain == S1 \cup S2 \cup S3 \cup S4 \cup S5 \cup S6 \cup S7
+\* S8: a bundle required by BundlePadding.bundle_required against proposed versions that can / cannot carry it
+S8 == LET Pads == {<< "required", "default" >>, << "default", "required" >>, << "required1", "required" >>}
+          Pvs == {<< "none", "after" >>} \cup ({"V3", "V4", "V5", "V6"} \X {"before", "after"})
+      IN  UNION {{Mk("required", r, 1, pv[1], pv[2], Rules.std, << << "pkh" >>, tout >>, SNone, o, i, pad[1], pad[2], FALSE, "exact", d) :
+                    r \in Regimes, pv \in Pvs, pad \in Pads, d \in {0, 0 - 1}} :
+                 <<tout, o, i>> \in {<< >>} \X {ONone, <<1,0,0>>, <<0,0,1>>} \X {INone, <<0,1>>}}
+
+Domain == S1 \cup S2 \cup S3 \cup S4 \cup S5 \cup S6 \cup S7 \cup S8
 
 Case(r) ==
     LET x == BuildSpec(r)
